@@ -164,6 +164,18 @@ class Fsm:
                 c.message = "None" if msg.variant == 0 else repr(msg.fields[0])
         c.calls = [e for e in c.path.events if e[0] == "call"]
         c.capacity = [e for e in c.path.events if e[0] == "capacity_err"]
+        # an explicit size limit on the reassembled payload (a comparison of the stored length with a
+        # constant that ends in an error) is the same thing as the fixed buffer's capacity error
+        c.size_limit = None
+        dlen = ("len", ("seq", ("sym", "self.data")))
+        plen = c.payload[3]
+        for f in c.path.st.pc.facts:
+            # -(len(D) + len(payload)) + B + 1 <= 0
+            r = f + Lin.atom(dlen) + plen
+            if r.is_const() and dlen in dict(f.terms):
+                c.size_limit = r.c - 1
+        if c.size_limit is not None and c.result.startswith("err") and not c.capacity:
+            c.capacity = [("size_limit", c.size_limit)]
 
 
 def get_fsm(ctx, cfg):
